@@ -11,6 +11,8 @@
 //!       N (exit status N) | kN (kill self with signal N). Beyond the list: exit 0.
 //!   VERIF_REC_FN = mod:M  -> exit status = crc32-chain(argv[1..]) % M
 //!   VERIF_REC_FN = outcome6 -> crc32-chain % 6: 0,1 exit 0; 2 exit 1; 3 exit 3; 4 SIGKILL; 5 SIGTERM
+//!   VERIF_REC_FN = outcome8 -> crc32-chain % 8: 0,1 exit 0; 2 exit 1; 3 exit 128; 4 SIGKILL; 5 exit 255; 6 exit 127; 7 exit 129
+//!   VERIF_REC_DRAIN = 1     -> read standard input to its end before exiting (a command that consumes its stdin)
 //! The invocation number is kept in "$VERIF_REC_LOG.n" (callers run children one at a time).
 
 use std::ffi::OsString;
@@ -90,10 +92,33 @@ fn main() {
             let _ = f.write_all(line.as_bytes());
         }
     }
+    if std::env::var_os("VERIF_REC_DRAIN").is_some() {
+        let mut sink = Vec::new();
+        let _ = std::io::Read::read_to_end(&mut std::io::stdin(), &mut sink);
+    }
     if let Ok(f) = std::env::var("VERIF_REC_FN") {
         if let Some(m) = f.strip_prefix("mod:") {
             let m: u32 = m.parse().unwrap_or(2);
             std::process::exit((chain % m) as i32);
+        }
+        // outcome8 = chain % 8: 0,1 -> exit 0; 2 -> 1; 3 -> 128; 4 -> SIGKILL; 5 -> 255; 6 -> 127; 7 -> 129
+        if f == "outcome8" {
+            match chain % 8 {
+                0 | 1 => std::process::exit(0),
+                2 => std::process::exit(1),
+                3 => std::process::exit(128),
+                5 => std::process::exit(255),
+                6 => std::process::exit(127),
+                7 => std::process::exit(129),
+                _ => {
+                    unsafe {
+                        libc::signal(libc::SIGKILL, libc::SIG_DFL);
+                        libc::kill(libc::getpid(), libc::SIGKILL);
+                    }
+                    std::thread::sleep(std::time::Duration::from_secs(5));
+                    std::process::exit(99);
+                }
+            }
         }
         // outcome = chain % 6: 0,1 -> exit 0; 2 -> exit 1; 3 -> exit 3; 4 -> killed by SIGKILL; 5 -> killed by SIGTERM
         if f == "outcome6" {
